@@ -8,7 +8,9 @@
                                                  compareGenesisAccounts, validateGenesisTransfer
     x/rollapp/genesisbridge/ibc_module.go        IBCModule.OnRecvPacket, EnableTransfers
     x/rollapp/genesisbridge/ics4_wrapper.go      ICS4Wrapper.transferAllowed
-    x/rollapp/keeper/authenticate_packet.go      GetRollappByPortChan
+    x/rollapp/keeper/authenticate_packet.go      GetRollappByPortChan (no canonical channel recorded / another one recorded)
+    x/lightclient/keeper/ibc_msg_channel_open_ack.go   HandleMsgChannelOpenAck (ante hook, top-level messages only)
+    x/denommetadata/keeper/keeper.go             CreateDenomMetadata (ErrAlreadyExists)
     x/rollapp/keeper/rollapp.go                  CheckAndUpdateRollappFields, SetRollappAsLaunched, SetIROPlanToRollapp
     x/rollapp/keeper/msg_server_update_rollapp.go   ForceGenesisInfoChange
     x/rollapp/types/message_create_rollapp.go    GetRollapp (zero-supply hotfix) + Rollapp.ValidateBasic (genesis part)
@@ -142,6 +144,8 @@ inductive RErr
   | checksum | pfx | denom | supply | accounts
   | trRequired | trUnexpected | trReceiver | trAmount
   | ibcDenom | credit | enable | lower
+  | noChannel          -- `GetRollappByPortChan`: canonical client set, canonical channel missing (gerrc.ErrInternal)
+  | mdExists           -- `CreateDenomMetadata`: metadata of the rollapp's IBC denom registered beforehand
   deriving DecidableEq, Repr, Inhabited
 
 /-- `GenesisBridgeData.ValidateBasic` -/
@@ -254,12 +258,15 @@ inductive Op
   | create (r : Nat) (g : Option GInfo)
   | setgi (r : Nat) (owner : Bool) (g : Option GInfo)
   | force (r : Nat) (gov : Bool) (g : GInfo)
-  | plan (r : Nat) (owner : Bool) (alloc : Int) (dur : Nat) (te : Bool)
+  | plan (r : Nat) (owner : Bool) (alloc : Int) (dur : Nat) (te : Bool) (start : Option Nat)
   | enable (r : Nat) (owner : Bool)
   | tick (dt : Nat)
   | seq (r : Nat)
   | link (r : Nat)
   | link2 (r : Nat)
+  | canon (r : Nat)
+  | chopen (r : Nat) (via : Nat)
+  | premd (r : Nat)
   | plainch
   | send (c : Nat)
   | recv (c : Nat) (ph : Nat) (p : Pkt)
@@ -285,6 +292,8 @@ def handshake (ra : Ra) (ph : Nat) (p : Pkt) : Ra × Res :=
     | some e => (ra, .rerr e)
     | none =>
       if d.gi.denom.isSet && !d.md.ibcOk then (ra, .rerr .ibcDenom)
+      -- `CreateDenomMetadata`: ErrAlreadyExists when the bank already has metadata for the rollapp's IBC denom
+      else if d.gi.denom.isSet && ra.md then (ra, .rerr .mdExists)
       else
         match credit d.gi.accounts ra.bal with
         | none => (ra, .rerr .credit)
@@ -345,11 +354,21 @@ def tenYears : Nat := 315360000
 /-- `Plan.PreLaunchTime` as set by `Plan.EnableTradingWithStartTime start`: `start + IroPlanDuration` -/
 def planPreLaunch (start dur : Nat) : Nat := start + dur
 
-/-- `MsgCreatePlan` (x/iro) as far as the rollapp is concerned: `CreatePlan` (the message carries no start
-    time, so trading that is enabled at creation starts at the block time) → `SetIROPlanToRollapp`, which
-    seals the genesis info whatever the trading flag and sets the pre-launch time to the plan's when
-    trading is enabled and to block time + 10 years when it is not -/
-def stepPlan (s : St) (r : Nat) (owner : Bool) (alloc : Int) (dur : Nat) (te : Bool) : St × Res :=
+/-- start of trading of a plan created with trading enabled (`Keeper.CreatePlan`): the message's
+    `start_time` (`none` = the zero time), moved up to the block time when it lies before it -/
+def planStart (now : Nat) (start : Option Nat) : Nat :=
+  match start with
+  | some t => if t < now then now else t
+  | none => now
+
+/-- `MsgCreatePlan` (x/iro) as far as the rollapp is concerned: `ValidateBasic` (a start time needs
+    `trading_enabled`; minimum allocation), the message server's checks, `CreatePlan` (trading that is
+    enabled at creation starts at max(`start_time`, block time)) → `SetIROPlanToRollapp`, which seals
+    the genesis info whatever the trading flag and sets the pre-launch time to the plan's (start +
+    duration) when trading is enabled and to block time + 10 years when it is not -/
+def stepPlan (s : St) (r : Nat) (owner : Bool) (alloc : Int) (dur : Nat) (te : Bool) (start : Option Nat) : St × Res :=
+  if start.isSome && !te then (s, .err)         -- ValidateBasic: "trading must be enabled to set start time"
+  else
   match getRa s r with
   | none => (s, .err)
   | some ra =>
@@ -363,9 +382,9 @@ def stepPlan (s : St) (r : Nat) (owner : Bool) (alloc : Int) (dur : Nat) (te : B
         else if ra.gi.denom.exp != 18 then (s, .err)
         else if ra.launched || ra.gi.sealed || !ra.gi.iroReady then (s, .err)
         else (setRa s { ra with gi := { ra.gi with sealed := true },
-                                preLaunch := some (if te then planPreLaunch s.now dur else s.now + tenYears),
+                                preLaunch := some (if te then planPreLaunch (planStart s.now start) dur else s.now + tenYears),
                                 plan := some (alloc, false), te := te,
-                                pstart := (if te then some s.now else none), pdur := dur }, .ok)
+                                pstart := (if te then some (planStart s.now start) else none), pdur := dur }, .ok)
 
 /-- `MsgEnableTrading` (x/iro `Keeper.EnableTrading`, same order of checks): the plan exists, trading is not
     enabled yet, the submitter owns the rollapp, the plan is not settled; then
@@ -410,7 +429,49 @@ def stepLink2 (s : St) (r : Nat) : St × Res :=
     if !ra.linked then (s, .err)
     else ({ s with chans := s.chans ++ [(s.nextChan, .second r)], nextChan := s.nextChan + 1 }, .ok)
 
-/-- `MsgTransfer` from the hub: `ICS4Wrapper.transferAllowed` -/
+/-- the light client of rollapp `r` becomes canonical (`SetCanonicalClient`); no channel yet -/
+def stepCanon (s : St) (r : Nat) : St × Res :=
+  match getRa s r with
+  | none => (s, .err)
+  | some ra =>
+    if !ra.launched || ra.linked then (s, .err)
+    else (setRa s { ra with linked := true }, .ok)
+
+/-- a transfer channel over the canonical client of `r` reaches OPEN on the hub.
+    `via = 0`: the hub's `MsgChannelOpenAck` is a top-level message of its transaction, so the ante
+    hook `HandleMsgChannelOpenAck` runs: it refuses the transaction when a canonical channel is
+    recorded already (the channel stays in INIT, its identifier is spent) and records the channel as
+    canonical otherwise.  `via ≠ 0`: the hook does not run (1: the `MsgChannelOpenAck` is nested in an
+    `authz.MsgExec`; 2: the handshake was started from the rollapp, the hub sees `MsgChannelOpenTry` /
+    `MsgChannelOpenConfirm` only): the channel opens and `Rollapp.ChannelId` is left as it is. -/
+def stepChopen (s : St) (r : Nat) (via : Nat) : St × Res :=
+  match getRa s r with
+  | none => (s, .err)
+  | some ra =>
+    if !ra.linked then (s, .err)
+    else if via == 0 then
+      if ra.chan.isSome then ({ s with nextChan := s.nextChan + 1 }, .err)
+      else
+        let s1 := setRa s { ra with chan := some s.nextChan }
+        ({ s1 with chans := s1.chans ++ [(s.nextChan, .canon r)], nextChan := s.nextChan + 1 }, .ok)
+    else ({ s with chans := s.chans ++ [(s.nextChan, .second r)], nextChan := s.nextChan + 1 }, .ok)
+
+/-- governance registers bank metadata for the IBC denom of the rollapp's native denom on its recorded
+    canonical channel (`CreateDenomMetadataProposal` → `Keeper.CreateDenomMetadata`) — outside the
+    handshake.  Defined for a rollapp with a recorded canonical channel and a native denom (otherwise
+    there is no such IBC denom); refused (`ErrAlreadyExists`) when the metadata exists. -/
+def stepPremd (s : St) (r : Nat) : St × Res :=
+  match getRa s r with
+  | none => (s, .err)
+  | some ra =>
+    if ra.chan.isNone || !ra.gi.denom.isSet then (s, .err)
+    else if ra.md then (s, .err)
+    else (setRa s { ra with md := true }, .ok)
+
+/-- `MsgTransfer` from the hub: `ICS4Wrapper.transferAllowed`.  On a channel over the canonical client
+    of `r` that is not the recorded canonical channel (`second`) `GetRollappByPortChan` fails with an
+    internal error (no canonical channel recorded) or an invalid-argument error (another channel is
+    recorded): neither is `ErrRollappNotFound`, so the transfer is refused. -/
 def stepSend (s : St) (c : Nat) : St × Res :=
   match s.chans.find? (·.1 == c) with
   | none => (s, .err)
@@ -421,12 +482,16 @@ def stepSend (s : St) (c : Nat) : St × Res :=
     | none => (s, .err)
     | some ra => if ra.tph == 0 then (s, .err) else (s, .ok)
 
-/-- `IBCModule.OnRecvPacket` -/
+/-- `IBCModule.OnRecvPacket`; on a `second` channel `GetRollappByPortChan`'s error becomes an error
+    acknowledgement ("get rollapp id"), whatever the packet -/
 def stepRecv (s : St) (c : Nat) (ph : Nat) (p : Pkt) : St × Res :=
   match s.chans.find? (·.1 == c) with
   | none => (s, .err)
   | some (_, .plain) => (s, lowerPlain p)
-  | some (_, .second _) => (s, .rerr .notCanonical)
+  | some (_, .second r) =>
+    match getRa s r with
+    | none => (s, .err)
+    | some ra => if ra.chan.isNone then (s, .rerr .noChannel) else (s, .rerr .notCanonical)
   | some (_, .canon r) =>
     match getRa s r with
     | none => (s, .err)
@@ -439,12 +504,15 @@ def step (s : St) : Op → St × Res
   | .create r g => stepCreate s r g
   | .setgi r owner g => stepSetgi s r owner g
   | .force r gov g => stepForce s r gov g
-  | .plan r owner alloc dur te => stepPlan s r owner alloc dur te
+  | .plan r owner alloc dur te start => stepPlan s r owner alloc dur te start
   | .enable r owner => stepEnable s r owner
   | .tick dt => ({ s with now := s.now + dt }, .ok)
   | .seq r => stepSeq s r
   | .link r => stepLink s r
   | .link2 r => stepLink2 s r
+  | .canon r => stepCanon s r
+  | .chopen r via => stepChopen s r via
+  | .premd r => stepPremd s r
   | .plainch => ({ s with chans := s.chans ++ [(s.nextChan, .plain)], nextChan := s.nextChan + 1 }, .ok)
   | .send c => stepSend s c
   | .recv c ph p => stepRecv s c ph p
